@@ -189,3 +189,45 @@ func findCalls(f *ssa.Function, pred func(cal *ssa.Function) bool) []*ssa.Call {
 	}
 	return out
 }
+
+// collectFieldStores records, for a struct built in memory at `root` (an Alloc or a FieldAddr), the values
+// stored into each field path (".Start.Character").  A field initialised by copying a local composite
+// literal (`*t48 = *t49`) is expanded into the fields of that literal.
+func collectFieldStores(root ssa.Value, prefix string, out map[string][]ssa.Value, depth int) {
+	if depth > 6 || root.Referrers() == nil {
+		return
+	}
+	for _, r := range *root.Referrers() {
+		switch u := r.(type) {
+		case *ssa.FieldAddr:
+			if u.X != root {
+				continue
+			}
+			pt, ok := u.X.Type().Underlying().(*types.Pointer)
+			if !ok {
+				continue
+			}
+			st, ok := pt.Elem().Underlying().(*types.Struct)
+			if !ok {
+				continue
+			}
+			collectFieldStores(u, prefix+"."+st.Field(u.Field).Name(), out, depth+1)
+		case *ssa.Store:
+			if u.Addr != root {
+				continue
+			}
+			if ld, ok := u.Val.(*ssa.UnOp); ok && ld.Op == token.MUL {
+				if al, ok := ld.X.(*ssa.Alloc); ok {
+					if _, isStruct := al.Type().Underlying().(*types.Pointer).Elem().Underlying().(*types.Struct); isStruct {
+						before := len(out)
+						collectFieldStores(al, prefix, out, depth+1)
+						if len(out) > before {
+							continue
+						}
+					}
+				}
+			}
+			out[prefix] = append(out[prefix], u.Val)
+		}
+	}
+}
